@@ -2,6 +2,7 @@
 // PC-SAFT as equation of state and as Helmholtz energy functional on the same hand-made parameter sets whose association
 // takes the closed-form (analytic) route - one A and one B site, or one C site - with the associating component first or
 // second, with different segment diameters, and with the A and B site on different components (induced association):
+// and on sets that take the iterative route (several A/B pairs, several C sites, both):
 // the residual Helmholtz energy of the same bulk state must be the same number.  Anything else is printed as `WITNESS ...`.
 #![cfg(all(feature = "pcsaft", feature = "dft"))]
 use feos::pcsaft::{PcSaft, PcSaftFunctional, PcSaftParameters, PcSaftRecord};
@@ -31,6 +32,11 @@ fn vx_witness_assoc_bulk() {
         ("C-site component second", vec![inert(), record("acid", 2.5, 3.9, 250.0, Some((0.0, 0.0, 1.0)))], [0.3, 0.9]),
         ("A site on the first, B site on the second component", vec![record("donor", 2.0, 3.2, 220.0, Some((1.0, 0.0, 0.0))), record("acceptor", 2.5, 3.5, 250.0, Some((0.0, 1.0, 0.0)))], [0.3, 0.9]),
         ("B site on the first, A site on the second component", vec![record("acceptor", 2.5, 3.5, 250.0, Some((0.0, 1.0, 0.0))), record("donor", 2.0, 3.2, 220.0, Some((1.0, 0.0, 0.0)))], [0.9, 0.3]),
+        // the iterative (cross-association) route of both implementations
+        ("two 2B components", vec![record("alcohol", 2.5, 3.9, 250.0, Some((1.0, 1.0, 0.0))), record("alcohol2", 2.0, 3.5, 230.0, Some((1.0, 1.0, 0.0)))], [0.9, 0.3]),
+        ("two C-site components", vec![record("acid1", 2.5, 3.9, 250.0, Some((0.0, 0.0, 1.0))), record("acid2", 2.0, 3.5, 230.0, Some((0.0, 0.0, 1.0)))], [0.9, 0.3]),
+        ("2B component + component with A, B and C site", vec![record("alcohol", 2.5, 3.9, 250.0, Some((1.0, 1.0, 0.0))), record("mixed", 2.0, 3.5, 230.0, Some((1.0, 1.0, 1.0)))], [0.9, 0.3]),
+        ("2B component + C-site component", vec![record("alcohol", 2.5, 3.9, 250.0, Some((1.0, 1.0, 0.0))), record("acid", 2.0, 3.5, 230.0, Some((0.0, 0.0, 1.0)))], [0.9, 0.3]),
     ];
     let (mut n_ok, mut n_bad) = (0, 0);
     for (what, records, n) in cases {
